@@ -5,8 +5,18 @@
   below show, for EVERY item list and EVERY layout, that these recorded spans are what the property
   demands (1-based, counted in characters, start ≤ end, inside the text, exactly at token boundaries);
   the correspondence (projection `spans`) then compares them with the spans of the real AST.
+
+  Second part (lexical half, proved): the model of the Slice lexer WITH locations (Model/SliceLexerLoc.lean — `advance_buffer`,
+  `self.cursor`, the `(start, token, end)` every arm of `lex_next_slice_token` returns; tied to the real lexer by
+  stream `C09lex`) assigns to the rendered text, for every `fileOk` file, every layout and every seed, exactly the
+  token locations the printer recorded, and every span the printer reports runs from the start of a token of that
+  stream to the end of a token of that stream — the first token after the element's `op` marker and the last token
+  before its `cl` marker, i.e. what `@L` / `@R` around the element's production deliver.  What remains by
+  correspondence is the parser (LALRPOP tables, grammar actions, `create_doc_comment`): projection `spans`.
 -/
 import SlicecVerif.Lemmas.Layout
+import SlicecVerif.Lemmas.SliceLexerLocLayout
+import SlicecVerif.Lemmas.SliceLexerLocItems
 
 namespace Slicec.C09
 
@@ -87,6 +97,301 @@ example : advanceStr ⟨1, 1⟩ "\t\r é/* */\nab" = ⟨2, 3⟩ := by decide
 example : ((render 0 0 [.op "x", .tok "struct", .sp, .tok "S", .cl "x"]).2.map fun s => (s.path, s.start, s.stop)) =
     [("x", ⟨1, 1⟩, ⟨1, 9⟩)] := by decide
 
+/-! ## the lexer's locations (Model/SliceLexerLoc.lean) -/
+
+open Slicec.SLex
+
+/-- one call of `lex_next_slice_token`, for EVERY buffer, cursor and attribute mode: without the locations it is the call of
+    the C02 model; the cursor after the call is the cursor before it advanced (`advance_buffer`) over exactly the characters
+    the call consumed; what it returns is tagged with the cursor on entry as its start — so an escaped identifier starts at
+    its backslash, a string at its opening quote, `::` `->` `[[` `]]` at their first character — except a doc comment, which
+    starts three columns further (after `///`); the end it is tagged with is the cursor after the call (`LStep.items`). -/
+theorem lexer_call_located (a : Bool) (cur : Loc) (c : Char) (cs : List Char) :
+    (lexNextLoc a cur c cs).step = lexNext a c cs ∧
+    (∃ pre, c :: cs = pre ++ (lexNext a c cs).rest ∧ (lexNextLoc a cur c cs).cur = pre.foldl advance cur) ∧
+    ((∀ d, (lexNext a c cs).res ≠ .tok (.doc d)) → (lexNextLoc a cur c cs).start = cur) ∧
+    (∀ d, (lexNext a c cs).res = .tok (.doc d) → (lexNextLoc a cur c cs).start = ⟨cur.row, cur.col + 3⟩) := by
+  obtain ⟨h1, h2, h3⟩ := lexNextLoc_good a cur c cs
+  refine ⟨h1, h2, ?_, ?_⟩
+  · intro hnd
+    rw [h3]
+    cases hres : (lexNext a c cs).res with
+    | skip w => rfl
+    | err e => rfl
+    | tok t => cases t <;> first | rfl | exact absurd hres (hnd _)
+  · intro d hd
+    rw [h3, hd]
+    simp only [tokStart, advance_slash]
+
+/-- **Erasure.** Dropping the locations from the located lexer gives the lexer of C02 — the iterator's whole output
+    (`lexRun`), and what the parser sees (`lexSlice`), whatever the start location of the block. -/
+theorem lexer_locations_erase (a : Bool) (cur : Loc) (cs : List Char) :
+    (lexRunLoc a cur cs).erase = lexRun a cs ∧ (lexSliceLocAt cur cs).erase = lexSlice cs ∧ (lexSliceLoc cs).erase = lexSlice cs :=
+  ⟨lexRunLoc_erase a cur cs, lexSliceLocAt_erase cur cs, lexSliceLoc_erase cs⟩
+
+/-- when a block is exhausted, the cursor has been advanced over every character of it (comments, strings, white space,
+    unknown symbols included): rows and columns never drift. -/
+theorem lexer_cursor_at_end (a : Bool) (cur : Loc) (cs : List Char) : (lexRunLoc a cur cs).cur = cs.foldl advance cur :=
+  lexRunLoc_cur a cur cs
+
+/-- **Every token lies exactly over its spelling — for EVERY text** (not only printed programs), every block start and
+    attribute mode: each token / error the lexer returns cuts the text as `pre ++ mid ++ post` with its end = the location
+    after `pre ++ mid` and its start = the location after `pre` (a doc comment: three columns later, after its `///`), both
+    counted from the block start by `advance`; and for a token, `mid` is the token's spelling (`spells`: the identifier with
+    or without its backslash, the string with its quotes, the literal, the keyword's table entry, the punctuation,
+    `///` + the doc text + a possibly stripped CR).  So locations are 1-based when the block start is, counted in
+    characters, start ≤ end, inside the text, never off by white space or a comment. -/
+theorem token_extent_exact (a : Bool) (cur : Loc) (cs : List Char) :
+    ∀ it ∈ (lexRunLoc a cur cs).items, ∃ pre mid post, cs = pre ++ mid ++ post ∧
+      it.stop = (pre ++ mid).foldl advance cur ∧
+      (match it.item with
+       | .tok t => spells t mid ∧ it.start = t.startAt (pre.foldl advance cur)
+       | .err _ => it.start = pre.foldl advance cur) :=
+  lexRunLoc_extent a cur cs
+
+/-- the separation lemma of C02 with locations: if the text `s` ends in a way that `r` cannot change (`compat`), the located
+    output on `s ++ r` is the located output on `s` followed by the located output on `r` read as a block that starts at
+    the location where `s` ends. -/
+theorem lex_is_local_located (a : Bool) (cur : Loc) (s r : List Char) (h : compat (lexRun a s).last r = true) :
+    (lexRunLoc a cur (s ++ r)).items =
+      (lexRunLoc a cur s).items ++ (lexRunLoc (lexRun a s).attr (s.foldl advance cur) r).items :=
+  lexRunLoc_append a cur s r h
+
+/-- a spelling consumed by ONE call of the lexer (every punctuation and two-character token, keyword, identifier, escaped
+    identifier, integer literal, string literal with its quotes, doc line): its located output is that one token from the
+    location where the spelling starts to the location where it ends; a doc comment starts three columns later. -/
+theorem one_call_extent (a : Bool) (cur : Loc) (c : Char) (cs : List Char) (t : SliceTok)
+    (hrest : (lexNext a c cs).rest = []) (hres : (lexNext a c cs).res = .tok t) :
+    (lexRunLoc a cur (c :: cs)).items = [⟨.tok t, t.startAt cur, (c :: cs).foldl advance cur⟩] := by
+  rw [lexRunLoc_oneCall a cur c cs hrest, hres]
+  cases t <;> simp [StepRes.items, tokStart, advance_slash, SliceTok.startAt]
+
+/-- an identifier as the printer writes it — `w`, or `\w` (always `\w` when `w` is a keyword): ONE identifier token from
+    the first character of the spelling, the BACKSLASH included, to the end of the spelling. -/
+theorem escaped_identifier_extent (a : Bool) (cur : Loc) (s : String) (esc : Bool)
+    (hesc : keywords.contains s = true → esc = true) (hid : isIdentText s.toList = true) :
+    (lexRunLoc a cur (if esc then "\\" ++ s else s).toList).items =
+      [⟨.tok (.ident s.toList), cur, advanceStr cur (if esc then "\\" ++ s else s)⟩] :=
+  lexRunLoc_identSpelling a cur s esc hesc hid
+
+/-- a doc line `///` + text (text on one line, not starting with a fourth slash): ONE doc-comment token that starts after
+    the three slashes and ends at the end of the line (a CR in front of the line break is stripped from the token's text
+    but lies inside its extent). -/
+theorem doc_line_extent (a : Bool) (cur : Loc) (s : String) (h1 : s.toList.head? ≠ some '/') (h2 : s.toList.contains '\n' = false) :
+    (lexRunLoc a cur ("///" ++ s).toList).items =
+      [⟨.tok (.doc (stripCr s.toList)), ⟨cur.row, cur.col + 3⟩, advanceStr cur ("///" ++ s)⟩] :=
+  lexRunLoc_docSpelling a cur s h1 h2
+
+/-- a text that starts and ends with a character that is neither white space nor a slash and does not end inside a line
+    comment (a scoped name `A::\B::C`, any single token): the first element of its located output starts where the text
+    starts, the last one ends where the text ends. -/
+theorem tight_text_extent (a : Bool) (cur : Loc) (cs : List Char) (h : tightText cs = true) (hline : (lexRun a cs).last ≠ .line) :
+    (∃ i tl, (lexRunLoc a cur cs).items = i :: tl ∧ i.start = cur) ∧
+    (∃ it, (lexRunLoc a cur cs).items.getLast? = some it ∧ it.stop = cs.foldl advance cur) := by
+  obtain ⟨c, r, d, hcs, hd, hw1, hs1, hw2, hs2⟩ := tightText_ends h
+  refine ⟨?_, lexRunLoc_getLast a cur cs d hd hw2 hs2 hline⟩
+  obtain ⟨i, tl, h1, h2, _⟩ := lexRunLoc_head a cur c r hw1 hs1
+  exact ⟨i, tl, by rw [hcs]; exact h1, h2⟩
+
+/-! ## printer and lexer agree on every token location -/
+
+/-- what `tokenLocs` (the printer's notes, `trace`) adds for one item — only locations `emitTok` itself recorded:
+    * an identifier item: one identifier token `(start, stop)` of `emitTok`, backslash included if written;
+    * an optional comma: nothing if the layout did not write it (never in layout 0), else one `Comma` token `(start, stop)`;
+    * separators and span markers: nothing;
+    * a `tok s` item whose spelling one call of the lexer consumes as the token `t` (not a doc comment): `t` at `(start, stop)`;
+    * a doc line (one line, no fourth slash): the doc comment at `(start + 3 columns, stop)`. -/
+theorem printer_notes (style : Nat) (T : Trace) :
+    (∀ s, (traceStep style T (.ident s)).toks =
+        T.toks ++ [⟨.ident s.toList, T.st.loc, (renderItem style T.st (.ident s)).lastEnd⟩]) ∧
+    ((traceStep style T .optComma).toks = T.toks ∨
+      (style ≠ 0 ∧ (traceStep style T .optComma).toks = T.toks ++ [⟨.comma, T.st.loc, (renderItem style T.st .optComma).lastEnd⟩])) ∧
+    (∀ n p, (traceStep style T (.nl n)).toks = T.toks ∧ (traceStep style T .sp).toks = T.toks ∧
+      (traceStep style T .glue).toks = T.toks ∧ (traceStep style T (.op p)).toks = T.toks ∧ (traceStep style T (.cl p)).toks = T.toks) ∧
+    (∀ s c cs t, s.toList = c :: cs → (lexNext T.attr c cs).rest = [] → (lexNext T.attr c cs).res = .tok t → (∀ d, t ≠ .doc d) →
+      (traceStep style T (.tok s)).toks = T.toks ++ [⟨t, T.st.loc, (renderItem style T.st (.tok s)).lastEnd⟩]) ∧
+    (∀ s, s.toList.head? ≠ some '/' → s.toList.contains '\n' = false →
+      (traceStep style T (.docLine s)).toks =
+        T.toks ++ [⟨.doc (stripCr s.toList), ⟨T.st.loc.row, T.st.loc.col + 3⟩, (renderItem style T.st (.docLine s)).lastEnd⟩]) := by
+  refine ⟨fun s => rfl, ?_, ?_, ?_, ?_⟩
+  · obtain ⟨rng, hren | ⟨hs, hren⟩⟩ := renderItem_optComma style T.st
+    · left
+      simp only [traceStep, hren]
+      simp
+    · right
+      refine ⟨hs, ?_⟩
+      have hne : ((emitTok { T.st with rng := rng } "," false).loc == T.st.loc) = false := by
+        have : (emitTok { T.st with rng := rng } "," false).loc = advance T.st.loc ',' := rfl
+        rw [this]
+        exact beq_eq_false_iff_ne.mpr (advance_ne_self _ _)
+      simp only [traceStep, hren, hne]
+      simp [Trace.emit]
+  · intro n p
+    refine ⟨rfl, rfl, rfl, rfl, ?_⟩
+    simp only [traceStep]
+    split <;> rfl
+  · intro s c cs t hs hrest hres hnd
+    simp only [traceStep, Trace.emit, hs]
+    rw [one_call_extent T.attr T.st.loc c cs t hrest hres]
+    have : t.startAt T.st.loc = T.st.loc := by
+      cases t <;> first | rfl | exact absurd rfl (hnd _)
+    rw [this]
+    simp only [toksLocOf, renderItem, emitTok, advanceStr, hs]
+  · intro s h1 h2
+    simp only [traceStep, Trace.emit, lexRunLoc_docSpelling T.attr T.st.loc s h1 h2, toksLocOf]
+    rfl
+
+/-- **Located layout theorem, item lists.** For every item list that passes the separation check of C02 (`itemsOk`), every
+    layout and every seed: the located lexer reads the rendered text (one block starting at 1:1) without error as exactly
+    the located token list the printer noted (`tokenLocs`): the k-th token has the start and end `render` recorded when
+    it wrote that token. -/
+theorem layout_locations_items (layout seed : Nat) (items : List Item) (h : itemsOk items = true) :
+    lexSliceLoc (render layout seed items).1.toList = .ok (tokenLocs layout seed items) :=
+  lex_render_loc layout seed items h
+
+/-- **Located layout theorem.** For EVERY abstract file that satisfies the decidable leaf conditions `fileOk` of C02, every
+    layout (tabs, CR LF, lone CR, multi-byte characters, comments in every gap, optional commas, escaped identifiers) and
+    every seed: the lexer's located token list of the rendered text is exactly the printer's `tokenLocs` — token for token
+    the (start, end) recorded by `emitTok` (see `printer_notes`) — and, locations dropped, it is the token list
+    `tokensWith false cs (fileItems f)` of C02's `layout_independence` (`cs` = the layout's optional commas). -/
+theorem layout_locations (f : SFile) (hf : fileOk f = true) (layout seed : Nat) :
+    lexSliceLoc (render layout seed (fileItems f)).1.toList = .ok (tokenLocs layout seed (fileItems f)) ∧
+    ∃ cs : List Bool, (layout = 0 → cs = []) ∧
+      (tokenLocs layout seed (fileItems f)).map (·.tok) = tokensWith false cs (fileItems f) := by
+  have hok := itemsOk_fileItems f hf
+  have h1 := lex_render_loc layout seed (fileItems f) hok
+  refine ⟨h1, ?_⟩
+  obtain ⟨cs, hcs, h2⟩ := lex_render layout seed (fileItems f) hok
+  refine ⟨cs, hcs, ?_⟩
+  have h3 := lexSliceLoc_erase (render layout seed (fileItems f)).1.toList
+  rw [h1, h2] at h3
+  simpa [LexResultLoc.erase] using h3
+
+/-! ## reported spans are token extents -/
+
+/-- **Spans are token extents, item lists.** For every item list that passes the separation check and writes only tight
+    texts, every layout and seed: the spans `render` reports are, one for one and in order, the spans
+    `(path, spelling start of token i, end of token j)` of the located token list, where `spanTokens` names `i` = the first
+    token written after the element's `op path` marker and `j` = the last token written before its `cl path` marker
+    (`i ≤ j`, both in range).  `spellStart` is the token's start, except that a doc comment's `///` is counted in. -/
+theorem spans_are_token_extents_items (layout seed : Nat) (items : List Item) (hok : itemsOk items = true)
+    (ht : itemsTight items = true) :
+    (render layout seed items).2 = (spanTokens layout seed items).map (spanOfTokens (tokenLocs layout seed items)) ∧
+    ∀ e ∈ spanTokens layout seed items, e.2.1 ≤ e.2.2 ∧ e.2.2 < (tokenLocs layout seed items).length :=
+  spans_render layout seed items hok ht
+
+/-- everything the printer writes for a `fileOk` file whose directives / scoped names / module path start and end with a
+    non-blank, non-slash character and whose doc lines do not start with a slash (`fileTight`) is a tight text. -/
+theorem printer_writes_tight_texts (f : SFile) (hf : fileOk f = true) (ht : fileTight f = true) :
+    itemsTight (fileItems f) = true :=
+  itemsTight_fileItems f hf ht
+
+/-- the name conditions of `fileTight` follow from the syntactic criterion of C02 (`names_with_identifier_segments`): a
+    scoped name whose `::`-separated segments are identifiers (first may be empty) is printed as a tight text, and so is
+    a directive made of identifiers joined by `::`. -/
+theorem tight_names_with_identifier_segments (id : String) (h : nameSegsOk (id.splitOn "::") = true) :
+    tightText (escapeScoped id).toList = true :=
+  tightText_of_segments id h
+
+/-- the directive half of the criterion: identifiers joined by `::` (keywords allowed inside attributes) are tight. -/
+theorem tight_directives_with_identifier_segments (segs : List String) (hne : segs ≠ [])
+    (h : ∀ s ∈ segs, isIdentText s.toList = true) (args : List String) :
+    attrTight ⟨"::".intercalate segs, args⟩ = true :=
+  tightText_directive segs hne h
+
+/-- **Spans are token extents.** For EVERY abstract file with `fileOk f` and `fileTight f`, every layout and every seed:
+    the lexer reads the rendered text as `toks = tokenLocs …` (previous theorem) and the spans the printer reports —
+    the ones the correspondence compares with the compiler's — are exactly `(path, start of token i, end of token j)`
+    for the `(path, i, j)` of `spanTokens`: first token after `op path`, last token before `cl path`. -/
+theorem spans_are_token_extents (f : SFile) (hf : fileOk f = true) (ht : fileTight f = true) (layout seed : Nat) :
+    lexSliceLoc (render layout seed (fileItems f)).1.toList = .ok (tokenLocs layout seed (fileItems f)) ∧
+    (render layout seed (fileItems f)).2 =
+      (spanTokens layout seed (fileItems f)).map (spanOfTokens (tokenLocs layout seed (fileItems f))) ∧
+    ∀ e ∈ spanTokens layout seed (fileItems f), e.2.1 ≤ e.2.2 ∧ e.2.2 < (tokenLocs layout seed (fileItems f)).length := by
+  have hok := itemsOk_fileItems f hf
+  have h := spans_render layout seed (fileItems f) hok (itemsTight_fileItems f hf ht)
+  exact ⟨lex_render_loc layout seed (fileItems f) hok, h.1, h.2⟩
+
+/-- **Corollary.** Every span `⟨p, a, b⟩` that `render` reports for such a file starts at the (spelling) start of a token of
+    the lexed stream and ends at the end of a token of the lexed stream, the first not after the second: never inside a
+    token, in white space, in a comment, or at a neighbouring element. -/
+theorem span_starts_and_ends_at_tokens (f : SFile) (hf : fileOk f = true) (ht : fileTight f = true) (layout seed : Nat)
+    (sp : SpanRec) (hsp : sp ∈ (render layout seed (fileItems f)).2) :
+    ∃ toks, lexSliceLoc (render layout seed (fileItems f)).1.toList = .ok toks ∧
+      ∃ (i j : Nat) (ti tj : LTok), i ≤ j ∧ toks[i]? = some ti ∧ toks[j]? = some tj ∧ sp.start = ti.spellStart ∧ sp.stop = tj.stop := by
+  obtain ⟨h1, h2, h3⟩ := spans_are_token_extents f hf ht layout seed
+  refine ⟨_, h1, ?_⟩
+  rw [h2] at hsp
+  obtain ⟨e, he, rfl⟩ := List.mem_map.mp hsp
+  obtain ⟨hle, hlt⟩ := h3 e he
+  have hi : e.2.1 < (tokenLocs layout seed (fileItems f)).length := Nat.lt_of_le_of_lt hle hlt
+  refine ⟨e.2.1, e.2.2, _, _, hle, List.getElem?_eq_getElem hi, List.getElem?_eq_getElem hlt, ?_, ?_⟩
+  · simp [spanOfTokens, List.getD_eq_getElem?_getD, List.getElem?_eq_getElem hi]
+  · simp [spanOfTokens, List.getD_eq_getElem?_getD, List.getElem?_eq_getElem hlt]
+
+/-! non-vacuity of the lexical half: a text with a tab, an escaped identifier, a multi-byte line comment ended by CR LF,
+    a doc comment, a two-character token, a string with its quotes -/
+example : lexSliceLoc "\t\\struct // é✓\r\n/// d\r\nx::y \"é\"".toList =
+    .ok [⟨.ident "struct".toList, ⟨1, 2⟩, ⟨1, 9⟩⟩, ⟨.doc [' ', 'd'], ⟨2, 4⟩, ⟨2, 7⟩⟩, ⟨.ident ['x'], ⟨3, 1⟩, ⟨3, 2⟩⟩,
+         ⟨.dcolon, ⟨3, 2⟩, ⟨3, 4⟩⟩, ⟨.ident ['y'], ⟨3, 4⟩, ⟨3, 5⟩⟩, ⟨.strLit ['é'], ⟨3, 6⟩, ⟨3, 9⟩⟩] := by decide
+/-- `spells` is not vacuous: the escaped identifier's extent `\\struct` (columns 2–8) is spelled with the backslash -/
+example : spells (.ident "struct".toList) "\\struct".toList ∧ spells (.doc [' ', 'd']) "/// d\r".toList ∧
+    spells (.strLit ['é']) "\"é\"".toList ∧ spells (.kw "StructKeyword") "struct".toList ∧ spells .dcolon "::".toList := by
+  refine ⟨Or.inr (by decide), ⟨" d\r".toList, by decide, by decide⟩, ?_, ?_, ?_⟩
+  · show "\"é\"".toList = _; decide
+  · show Gen.sliceKeywords.lookup _ = _; decide
+  · show "::".toList = _; decide
+/-- an error carries its locations too: an unterminated string ends in front of the line break -/
+example : lexSliceLoc "a \"bc\nd".toList = .error .unterminatedString ⟨1, 3⟩ ⟨1, 6⟩ := by decide
+/-- a file with a doc comment, an attribute, a keyword used as a name (always escaped), an optional type satisfies the
+    hypotheses of `spans_are_token_extents` -/
+def exFileLoc : SFile := ⟨[⟨"cs::attr", ["a b"]⟩], none,
+  [.struct [" doc é"] [⟨"deprecated", []⟩] true "struct"
+     [⟨[], [], some ⟨false, 10, 7, false⟩, "x", .mk [] (.seq (.mk [] (.prim .string) true)) false⟩]]⟩
+example : fileOk exFileLoc = true ∧ fileTight exFileLoc = true := by decide
+/-- the items of `/// d é` / `compact struct \struct` with the element `d0` and its identifier `d0.id`: the struct's span
+    runs from `compact` (after the doc line) to the end of the escaped name; its tokens are number 1 and 3 of the stream -/
+def exItems : List Item :=
+  [.docLine " d é", .nl 0, .op "d0", .tok "compact", .sp, .tok "struct", .sp, .op "d0.id", .ident "struct", .cl "d0.id", .cl "d0"]
+example : itemsOk exItems = true ∧ itemsTight exItems = true := by decide
+example : spanTokens 0 0 exItems = [("d0.id", 3, 3), ("d0", 1, 3)] := by decide
+/-- the same without the doc line (`decide` cannot run `String.startsWith`, which `emitGap` calls after a doc line): the
+    located tokens the printer notes, the token indices of the spans, the spans `render` reports -/
+def exItems2 : List Item :=
+  [.op "d0", .tok "compact", .sp, .tok "struct", .sp, .op "d0.id", .ident "struct", .cl "d0.id", .cl "d0"]
+example : tokenLocs 0 0 exItems2 =
+    [⟨.kw "CompactKeyword", ⟨1, 1⟩, ⟨1, 8⟩⟩, ⟨.kw "StructKeyword", ⟨1, 9⟩, ⟨1, 15⟩⟩, ⟨.ident "struct".toList, ⟨1, 16⟩, ⟨1, 23⟩⟩] := by
+  decide
+example : spanTokens 0 0 exItems2 = [("d0.id", 2, 2), ("d0", 0, 2)] := by decide
+example : (render 0 0 exItems2).2.map (fun s => (s.path, s.start, s.stop)) =
+    [("d0.id", ⟨1, 16⟩, ⟨1, 23⟩), ("d0", ⟨1, 1⟩, ⟨1, 23⟩)] := by decide
+/-- a pseudo-random layout (layout 1, seed 45) of a struct with one field: a line comment containing a lone CR, block
+    comments with multi-byte characters, tabs, an escaped identifier `\\S`, a CR LF gap, a written optional comma; the scoped
+    name `A::B` is one item and three tokens.  The located tokens the printer notes, the token indices of the spans and the
+    spans `render` reports (the field `f` runs from token 4 `x` to token 8 `B`). -/
+def exItems3 : List Item :=
+  [.op "d0", .tok "compact", .sp, .tok "struct", .sp, .op "d0.id", .ident "S", .cl "d0.id", .cl "d0", .sp, .tok "{", .nl 1,
+   .op "f", .ident "x", .glue, .tok ":", .sp, .tok "A::B", .cl "f", .glue, .optComma, .nl 0, .tok "}"]
+example : itemsOk exItems3 = true ∧ itemsTight exItems3 = true := by decide
+set_option maxRecDepth 8000 in
+example : (render 1 45 exItems3).1 =
+    "compact // old:\r x: bool\nstruct/* * / */\\S/*é✓ü*/{\t\t x/* \r */:\t\t A::B\r\n,//\r\n}" := by decide
+set_option maxRecDepth 8000 in
+example : tokenLocs 1 45 exItems3 =
+    [⟨.kw "CompactKeyword", ⟨1, 1⟩, ⟨1, 8⟩⟩, ⟨.kw "StructKeyword", ⟨2, 1⟩, ⟨2, 7⟩⟩, ⟨.ident ['S'], ⟨2, 16⟩, ⟨2, 18⟩⟩,
+     ⟨.lbrace, ⟨2, 25⟩, ⟨2, 26⟩⟩, ⟨.ident ['x'], ⟨2, 29⟩, ⟨2, 30⟩⟩, ⟨.colon, ⟨2, 37⟩, ⟨2, 38⟩⟩, ⟨.ident ['A'], ⟨2, 41⟩, ⟨2, 42⟩⟩,
+     ⟨.dcolon, ⟨2, 42⟩, ⟨2, 44⟩⟩, ⟨.ident ['B'], ⟨2, 44⟩, ⟨2, 45⟩⟩, ⟨.comma, ⟨3, 1⟩, ⟨3, 2⟩⟩, ⟨.rbrace, ⟨4, 1⟩, ⟨4, 2⟩⟩] := by decide
+/-- the theorem's instance for this layout -/
+example : lexSliceLoc (render 1 45 exItems3).1.toList = .ok (tokenLocs 1 45 exItems3) :=
+  layout_locations_items 1 45 exItems3 (by decide)
+set_option maxRecDepth 8000 in
+example : spanTokens 1 45 exItems3 = [("d0.id", 2, 2), ("d0", 0, 2), ("f", 4, 8)] := by decide
+set_option maxRecDepth 8000 in
+example : (render 1 45 exItems3).2.map (fun s => (s.path, s.start, s.stop)) =
+    [("d0.id", ⟨2, 16⟩, ⟨2, 18⟩), ("d0", ⟨1, 1⟩, ⟨2, 18⟩), ("f", ⟨2, 29⟩, ⟨2, 45⟩)] := by decide
+/-- `fileOk` alone does not make spans start at tokens: a directive may carry a blank (`fileTight` excludes it) -/
+example : attrOk ⟨" a", []⟩ = true ∧ attrTight ⟨" a", []⟩ = false := by decide
+
 end Slicec.C09
 
 #print axioms Slicec.C09.advance_fold
@@ -95,3 +400,21 @@ end Slicec.C09
 #print axioms Slicec.C09.token_loc_exact
 #print axioms Slicec.C09.span_tight
 #print axioms Slicec.C09.spans_wellformed
+#print axioms Slicec.C09.lexer_call_located
+#print axioms Slicec.C09.lexer_locations_erase
+#print axioms Slicec.C09.lexer_cursor_at_end
+#print axioms Slicec.C09.token_extent_exact
+#print axioms Slicec.C09.lex_is_local_located
+#print axioms Slicec.C09.one_call_extent
+#print axioms Slicec.C09.escaped_identifier_extent
+#print axioms Slicec.C09.doc_line_extent
+#print axioms Slicec.C09.tight_text_extent
+#print axioms Slicec.C09.printer_notes
+#print axioms Slicec.C09.layout_locations_items
+#print axioms Slicec.C09.layout_locations
+#print axioms Slicec.C09.spans_are_token_extents_items
+#print axioms Slicec.C09.printer_writes_tight_texts
+#print axioms Slicec.C09.tight_names_with_identifier_segments
+#print axioms Slicec.C09.tight_directives_with_identifier_segments
+#print axioms Slicec.C09.spans_are_token_extents
+#print axioms Slicec.C09.span_starts_and_ends_at_tokens
